@@ -2,7 +2,7 @@
    code currently has ([cfg_code]) against recorded traces, and the exact specification (Spec/MultiTour.v)
    evaluated on the implementation's own episodes. *)
 From Coq Require Import ZArith List Bool Lia Arith.
-From RL4CO Require Import Base.Num Base.EnvSig Spec.Routes Spec.MultiTour Env.MTSP Env.MTSPProofs Harness.HEnv.
+From RL4CO Require Import Base.Num Base.EnvSig Spec.Routes Spec.MultiTour Env.MTSP Env.MTSPProofs Harness.HEnv Harness.HBook.
 Import ListNotations.
 Open Scope Z_scope.
 
@@ -90,3 +90,14 @@ Definition check_C04 (c : mtsp_case) : Z :=
 
 (* C05: model masks inside implementation masks *)
 Definition check_C05 (c : mtsp_case) : Z := check_trace (E:=M) (c_inst c) 1 (c_trace c).
+
+(* ---------------------------------------------------------------- bookkeeping (C02 / C04, see Harness/HBook.v)
+   keys of the env's step output compared after every step, in this order:
+   i (= number of steps taken), current_node (= the action just taken), first_node (= the first action of the episode: the
+   policy's context embedding reads it), agent_idx, current_length, max_subtour_length *)
+Definition book_obs (s : mtsp_st) : list Z :=
+  [Z.of_nat (cnt s); Z.of_nat (cur s); Z.of_nat (first s); agent s; curlen s; maxsub s].
+Definition book_kinds : list nat := [1; 2; 3; 0; 0; 0]%nat.
+Definition mtsp_book := (mtsp_hinst * list Z * list Z * list (nat * list Z))%type.
+Definition check_book (c : mtsp_book) : Z :=
+  match c with (i, tols, o0, tr) => book_check M (fst i) book_obs book_kinds tols o0 tr end.
